@@ -859,6 +859,27 @@ def expected_checkpoint_raise(err: dict) -> bool:
     return not (err.get("code") == "InvalidParameterValueException" and str(err.get("message", "")).startswith("Invalid Checkpoint Token"))
 
 
+def response_over_limit(v):
+    """None, or (mechanism, response bytes, payload characters) when the outcome dict cannot be delivered: the Python 3.12 Lambda
+    runtime encodes the returned dict as JSON text with non-ASCII characters kept (UTF-8)."""
+    import json as _json
+
+    if not isinstance(v, dict) or v.get("Status") not in ("SUCCEEDED", "FAILED"):
+        return None
+    size = len(_json.dumps(v, ensure_ascii=False).encode("utf-8", "surrogatepass"))
+    if size <= RESP_LIMIT + 200:
+        return None
+    inner = v.get("Result") if v.get("Status") == "SUCCEEDED" else _json.dumps(v.get("Error") or {}, ensure_ascii=False)
+    inner = inner or ""
+    if len(inner) > RESP_LIMIT:
+        why = "payload-itself-over-limit"
+    elif len(inner.encode("utf-8", "surrogatepass")) > len(inner):
+        why = "non-ascii-payload-counted-in-characters"
+    else:
+        why = "escape-doubling-when-the-response-is-encoded"
+    return why, size, len(inner)
+
+
 def mon_c18(ix: Index):  # noqa: C901, PLR0912
     import json as _json
 
@@ -883,6 +904,9 @@ def mon_c18(ix: Index):  # noqa: C901, PLR0912
                 continue
             st = v["Status"]
             er = e.get("exec_result")
+            why = response_over_limit(v)
+            if why:
+                out.append(V("C18", "C18/outcome-exceeds-response-limit/%s" % why[0], "the returned outcome takes %d bytes in the response (payload text %d characters)" % why[1:], e["i"]))
             if st == "SUCCEEDED":
                 if "Error" in v:
                     out.append(V("C18", "C18/succeeded-with-error", str(v)[:120], e["i"]))
@@ -1109,16 +1133,9 @@ def mon_c16(ix: Index):  # noqa: C901, PLR0912
         er = e.get("exec_result")
         if v.get("Status") in ("SUCCEEDED", "FAILED"):
             n += 1
-            if size > RESP_LIMIT + 200:
-                inner = v.get("Result") if v.get("Status") == "SUCCEEDED" else _json.dumps(v.get("Error") or {}, ensure_ascii=False)
-                inner = inner or ""
-                if len(inner) > RESP_LIMIT:
-                    why = "payload-itself-over-limit"
-                elif len(inner.encode("utf-8", "surrogatepass")) > len(inner):
-                    why = "non-ascii-payload-counted-in-characters"
-                else:
-                    why = "escape-doubling-when-the-response-is-encoded"
-                out.append(V("C16", "C16/response-over-lambda-limit/%s" % why, "handler returned %d bytes (payload text %d characters)" % (size, len(inner)), e["i"]))
+            why = response_over_limit(v)
+            if why:
+                out.append(V("C16", "C16/response-over-lambda-limit/%s" % why[0], "handler returned %d bytes (payload text %d characters)" % why[1:], e["i"]))
             if v.get("Status") == "SUCCEEDED" and v.get("Result") == "" and not (er and er["action"] == "SUCCEED" and er.get("payload")):
                 out.append(V("C16", "C16/empty-result-without-recorded-payload", "SUCCEEDED with empty Result but no EXECUTION SUCCEED payload", e["i"]))
             ret = ix.prog.get("ret") or {}
